@@ -180,6 +180,11 @@ def run_case(run, c, reply, tbl, formula, Formula, me):
                 viol("set natural_density then read it back differs", got=f.natural_density)
             if ratio and not close(f.density, float(c["nat"] / ratio)):
                 viol("density != natural_density / ratio after attribute assignment", got=f.density)
+            d2 = 1.5 * f.density
+            f.density = d2
+            if ratio and not close(f.natural_density, float(d2 * ratio)):
+                viol("natural_density does not follow a later assignment to density",
+                     got=f.natural_density, expected=float(d2 * ratio))
         else:
             d = c["dens"] if c["dens"] is not None else 1.0
             f.density = d
@@ -191,6 +196,12 @@ def run_case(run, c, reply, tbl, formula, Formula, me):
             f.natural_density = nd
             if not close(f.density, d):
                 viol("read natural_density then set it does not restore the density", got=f.density)
+            # natural density given first, density re-assigned afterwards: the natural density follows
+            for d2 in (d * 1.25, d):
+                f.density = d2
+                if ratio and not close(f.natural_density, float(d2 * ratio)):
+                    viol("natural_density does not follow a later assignment to density",
+                         got=f.natural_density, expected=float(d2 * ratio))
     elif k == "replace":
         f = Formula(structure=pyside.struct_objs(s, tbl), density=c["dens"])
         src, tgt = pyside.atom_of(c["src"], tbl), pyside.atom_of(c["tgt"], tbl)
@@ -230,7 +241,7 @@ def run_case(run, c, reply, tbl, formula, Formula, me):
                     viol("replace does not keep the cell volume (density != rho*M'/M)",
                          got=g.density, expected=float(Fraction(d0) * M1 / M0))
     elif k == "volume":
-        f = Formula(structure=pyside.struct_objs(s, tbl))
+        f = Formula(structure=pyside.struct_objs(s, tbl), name="sample" if c.get("how") == "kw" else None)
         pf = c["pf"]
         try:
             if pf is None:
